@@ -27,15 +27,41 @@ def is_pow2(x):
     return x & (x - 1) == 0
 
 
+INTERNAL = ("U.int.shl_internal", "U.int.shr_pad_internal", "U.int.rotate_digits_left", "U.int.unchecked_rotate_left")
+
+
+def gen_internal(rng, tier, configs):
+    """internal shift / rotate functions through the hooks, amounts inside their callers' contracts
+    (shift < BITS, rotate amount <= BITS, digit rotation <= N)"""
+    out = []
+    per = 150 if tier == "thorough" else 20
+    for (w, n) in configs:
+        bits = w * n
+        k = per if bits <= 1100 else 3
+        for _ in range(k):
+            v = gen_value(rng, w, n)
+            s = rng.choice([rng.below(bits), max(0, min(bits - 1, rng.below(n + 1) * w + rng.below(3) - 1)), 0, bits - 1])
+            out.append(fmt_line("U.int.shl_internal", w, n, [v, s], "LZ"))
+            out.append(fmt_line("U.int.shr_pad_internal", w, n, [v, s, rng.chance(1, 2)], "LZB"))
+            out.append(fmt_line("U.int.rotate_digits_left", w, n, [v, rng.below(n + 1)], "LZ"))
+            r = rng.choice([rng.below(bits + 1), bits, 0, min(bits, rng.below(n + 1) * w)])
+            out.append(fmt_line("U.int.unchecked_rotate_left", w, n, [v, r], "LZ"))
+    return out
+
+
 def gen(rng, tier):
     thorough = tier == "thorough"
-    out = std_gen(rng, tier, OPS, CONFIGS_ALL if thorough else CONFIGS_QUICK, 300 if thorough else 40, gen_z=gen_z, big_divisor=20)
+    configs = CONFIGS_ALL if thorough else CONFIGS_QUICK
+    out = std_gen(rng, tier, {k: v for k, v in OPS.items() if k not in INTERNAL}, configs, 300 if thorough else 40, gen_z=gen_z, big_divisor=20)
+    out += gen_internal(rng, tier, configs)
     # every amount 0..2*BITS+1 on boundary values at small widths
     small = [(8, 1), (8, 2), (8, 3), (16, 1), (16, 3)] if thorough else [(8, 3), (16, 1)]
     for (w, n) in small:
         bv = boundary_values(w, n)
         vals = bv if thorough else [rng.choice(bv) for _ in range(4)] + [gen_value(rng, w, n) for _ in range(2)]
         for op, sig in OPS.items():
+            if op in INTERNAL:
+                continue
             for v in vals:
                 for s in range(0, 2 * w * n + 2):
                     out.append(fmt_line(op, w, n, [v, s], sig))
@@ -53,6 +79,8 @@ def observable(case, impl, model, dbg):
     constrained by C05 only when BITS is a power of two; at other widths the *value* is unconstrained
     (the flag still is).  The model transcribes the code's `& (BITS-1)`, so any difference there is drift."""
     toks = case.split(" ")
+    if toks[0] in INTERNAL:
+        return True
     op = toks[0].split(".")[1]
     w, n = int(toks[1]), int(toks[2])
     bits = w * n
